@@ -55,6 +55,9 @@ FIXED = [
     ("GG", ["C20", "C03"], "cd22548", "renaming a cells in a base to a name a sub space uses for its own cells was accepted and the sub space lost its definition"),
     ("HH", ["C07"], "05b2bad", "setting/replacing/deleting the formula of a child space of a parametrised space kept the live ItemSpaces with the old formula"),
     ("HALFBUILT2", ["C05", "C11"], "2a3dd9b", "an ItemSpace whose construction failed inside the base constructor stayed registered in its base's dynamic-space list"),
+    ("C20-DOCTOK", ["C20"], "0ecf5ba", "replacing a docstring written as adjacent literals or in parentheses cut it at its first token ('newb' / SyntaxError)"),
+    ("C20-SPLIT", ["C20", "C04"], "5f436a5", "str.splitlines on source text: a def with a form feed / U+2028 / NEL inside a string literal was rejected, such characters in a new doc became newlines"),
+    ("C20-DEDENT", ["C20"], "2816b2e", "a function object defined in an indented block lost that indentation inside its multi-line string literals (other values) and was rejected when a line started at column 0"),
     ("M", ["C15"], "b10cccc", "export: names in a comprehension following a nested class/def scope were not rewritten to self.<name> (NameError in the package)"),
     ("N", ["C17"], "c0724cd", "nodes rolled back by a failure a formula handled leaked into the next traceback"),
     ("O", ["C04"], "14fa167", "`_is_cached = False` of a lambda-defined cells was written but not read back"),
